@@ -226,6 +226,9 @@ func (sta *State) UsedRandomCleaner() {
 }
 
 func (sta *State) registerRandom(r [32]byte) bool {
+	// r doubles as the client's ephemeral X25519 public key, and X25519 ignores the top bit of it:
+	// a copy with that bit flipped authenticates identically, so it must map to the same entry
+	r[31] &= 0x7f
 	sta.usedRandomM.Lock()
 	_, used := sta.UsedRandom[r]
 	sta.UsedRandom[r] = sta.WorldState.Now().Unix()
